@@ -187,6 +187,15 @@ class Worker:
         """Local worker cache."""
         self.most_recent_read_submit: RuntimeAddress | None = None
         """Tracks the most recently processed submit message from above."""
+        self._mailbox_mutex = Lock()
+        """
+        A lock to serialise mailbox updates between the two worker threads.
+
+        The incoming thread deposits results and wakes waiting tasks while the
+        main thread registers awaits and drops mailboxes. Depositing and
+        registering must not interleave, otherwise a task can be woken twice
+        for one await, or a mailbox can vanish between its lookup and its use.
+        """
         self.read_receipt_mutex = Lock()
         """
         A lock to ensure waiting messages's read receipt is correct.
@@ -317,14 +326,19 @@ class Worker:
 
     def _handle_result(self, result: RuntimeResult) -> None:
         """Insert result into appropriate mailbox and wake waiting task."""
+        with self._mailbox_mutex:
+            self._deposit_result(result)
+
+    def _deposit_result(self, result: RuntimeResult) -> None:
+        """Deposit `result` and wake its waiter; caller holds the mutex."""
         assert result.return_address.worker_id == self._id
 
         mailbox_id = result.return_address.mailbox_index
-        if mailbox_id not in self._mailboxes:
+        box = self._mailboxes.get(mailbox_id)
+        if box is None:
             # If the mailbox has been dropped due to a cancel, ignore result
             return
 
-        box = self._mailboxes[mailbox_id]
         box.deposit_result(result)
 
         if box.has_task_waiting:
@@ -480,10 +494,14 @@ class Worker:
         if not isinstance(future, RuntimeFuture):
             raise RuntimeError('Can only await on a BQSKit RuntimeFuture.')
 
-        if future.mailbox_id not in self._mailboxes:
-            raise RuntimeError('Cannot await on a canceled task.')
+        with self._mailbox_mutex:
+            self._register_await(task, future)
 
-        box = self._mailboxes[future.mailbox_id]
+    def _register_await(self, task: RuntimeTask, future: RuntimeFuture) -> None:
+        """Record that `task` waits on `future`; caller holds the mutex."""
+        box = self._mailboxes.get(future.mailbox_id)
+        if box is None:
+            raise RuntimeError('Cannot await on a canceled task.')
 
         # Let the mailbox know this task is waiting
         box.dest_addr = task.return_address
